@@ -25,6 +25,8 @@ OBLIGATIONS = [
     "NanoVerif.C13.radial_applyTransform_sound",
     "NanoVerif.C13.radial_split_sound",
     "NanoVerif.C13.decOK_trivial",
+    "NanoVerif.TrProofs.map_font_space_to_viewbox_eq",
+    "NanoVerif.TrProofs.map_font_space_to_viewbox_inverts",
 ]
 DESIGN_REF = "DESIGN.md §5 C13"
 LEVEL_TEXT = ("Proof of the recursive walk for the whole supported grammar + per-step theorems + sampling. Proved in Lean: "
